@@ -467,6 +467,10 @@ class Collections:
                 c.nlocal += 1
             a.extend(b)
             return a
+        if isinstance(e, ast.Subscript) and isinstance(e.slice, ast.Constant) and isinstance(e.value, ast.Name):
+            got = self._bucket(e, depth, busy)
+            if got is not None:
+                return got
         if isinstance(e, ast.Subscript) and isinstance(e.slice, ast.Slice) and e.slice.lower is None and e.slice.upper is None and e.slice.step is None:
             return self._describe(e.value, depth - 1, busy)
         if isinstance(e, ast.Call):
@@ -561,6 +565,68 @@ class Collections:
             if r is not None:
                 return self._describe_copy(r)
         return self._root(e)
+
+    def _bucket(self, e: ast.Subscript, depth: int, busy: set) -> Desc | None:
+        """`buckets[c]` where `buckets` is a fixed set of initially empty containers chosen by an index expression when filled
+        (`buckets = ([], [])` / `{True: [], False: []}`;  `buckets[1 if x.flag else 0].append(x)`, `buckets[x.flag].append(x)`):
+        the elements added under an index that equals the constant `c`."""
+        fn = self.fn
+        name = e.value.id
+        defs = fn.reaching(name, e.value)
+        if len(defs) != 1 or defs[0].kind != "assign" or defs[0].value is None:
+            return None
+        v = defs[0].value
+        if isinstance(v, (ast.Tuple, ast.List)) and v.elts and all(_is_empty_value(x) for x in v.elts):
+            slots = list(range(len(v.elts)))
+        elif isinstance(v, ast.Dict) and v.keys and all(isinstance(k, ast.Constant) for k in v.keys) and all(_is_empty_value(x) for x in v.values):
+            slots = [k.value for k in v.keys]
+        else:
+            return None
+        c = e.slice.value
+        if isinstance(v, (ast.Tuple, ast.List)) and isinstance(c, int) and c < 0:
+            c += len(slots)
+        if not any(c == k for k in slots):
+            return None
+        evs = self.events().get(name, [])
+        if not evs or any(not (ev[0] == "add" and ev[1] == "subscript-load") for ev in evs):
+            return None
+        two = len(slots) == 2 and all(any(k == b for k in slots) for b in (0, 1))  # indexable by a bool
+        raw = self._event_contribs(name, [defs[0].stmt], depth, busy | {("ev", name)})
+        if raw.unknown or raw.removals:
+            return None
+        out = Desc()
+        for ci in raw.contribs:
+            key = ci.elt
+            while isinstance(key, ast.Call) and isinstance(key.func, ast.Name) and key.func.id in ("int", "bool") and len(key.args) == 1 and two:
+                key = key.args[0]
+            extra: list | None
+            if isinstance(key, ast.Constant):
+                extra = [] if key.value == c else None
+            elif isinstance(key, ast.IfExp) and isinstance(key.body, ast.Constant) and isinstance(key.orelse, ast.Constant):
+                a, b = key.body.value == c, key.orelse.value == c
+                extra = [] if a and b else [(key.test, True)] if a else [(key.test, False)] if b else None
+            elif two and key is not None:
+                t = fn.type_of(key)
+                ms = list(t[1]) if t[0] == "union" else [t]
+                if isinstance(key, (ast.Compare, ast.BoolOp)) or (isinstance(key, ast.UnaryOp) and isinstance(key.op, ast.Not)) or (ms and all(m[0] == "b" and m[1] == "bool" for m in ms)):
+                    extra = [(key, bool(c))]
+                else:
+                    return None
+            else:
+                return None
+            if extra is None:
+                continue
+            node = ci.node
+            many = isinstance(node, ast.Call) and isinstance(node.func, ast.Attribute) and node.func.attr in ADD_MANY
+            if many:
+                sub = self._describe_copy(ci.value) if ci.value is not None and parent(ci.value) is None else self._describe(ci.value, depth - 1, busy)
+                if sub.unknown or sub.removals:
+                    return None
+                for x in sub.contribs:
+                    out.contribs.append(Contribution(x.elt, x.value, ci.binders + x.binders, ci.conds + extra + x.conds, ci.context, node, "add", "bucket:" + x.how, acc=name))
+            else:
+                out.contribs.append(Contribution(ci.value, None, ci.binders, ci.conds + extra, ci.context, node, "add", "bucket", acc=name))
+        return out
 
     def _record_field(self, e: ast.Attribute, depth: int, busy: set) -> Desc | None:
         """`obj.field` where obj is a local record object whose field is changed in place (`obj.field.add(x)`): what the
